@@ -163,18 +163,19 @@ theorem witness_v4mapped :
 /-! ## `D_pfx_equal_halves`: `IpcryptPfx::new` asserts that the key halves differ -/
 
 /-- for every choice of primitives: a parsable address and a 32-byte key whose halves are equal
-    make `encrypt_ip` (and `decrypt_ip`) panic in pfx mode. -/
+    are rejected by `encrypt_ip` (and `decrypt_ip`) in pfx mode with an error (repaired: it used
+    to reach the assertion in `IpcryptPfx::new` and panic). -/
 theorem pfx_equal_halves_panics (P : IpPrims) (t k : Bytes) (ip : Ip)
     (hp : P.parseIp t = some ip) (hk : k.length = 32) (hh : k.take 16 = k.drop 16) :
-    encryptIp P t k [112, 102, 120] = .panic ∧ decryptIp P t k [112, 102, 120] = .panic := by
+    encryptIp P t k [112, 102, 120] = .err .pfxHalves ∧ decryptIp P t k [112, 102, 120] = .err .pfxHalves := by
   have hpn : pfxKeyPanics k = true := by simp [pfxKeyPanics, hh]
-  have he : encryptIp P t k [112, 102, 120] = .panic := by
+  have he : encryptIp P t k [112, 102, 120] = .err .pfxHalves := by
     simp [encryptIp, hp, modeOf, hk, hpn]
-  exact ⟨he, (ip_checks_agree P t k _).2.mp he⟩
+  exact ⟨he, ((ip_checks_agree P t k _).1 _).mp he⟩
 
 theorem witness_pfx_equal_halves :
     D_pfx_equal_halves .pfx (List.replicate 32 7) = true ∧
-    encryptIp toyIpPrims (toyShowIp (.v4 [1, 2, 3, 4])) (List.replicate 32 7) [112, 102, 120] = .panic := by
+    encryptIp toyIpPrims (toyShowIp (.v4 [1, 2, 3, 4])) (List.replicate 32 7) [112, 102, 120] = .err .pfxHalves := by
   decide
 
 /-! ## `D_pfx_v4form`: a pfx ciphertext in `::ffff:0:0/96` is printed, and then decrypted, as IPv4 -/
